@@ -149,17 +149,19 @@ def fold_value_of(m: Model, lgs, lg, deep=False):
     binary = [o for o in lex.truth_functional if lex.arity[o] == 2]
     unary = [o for o in lex.truth_functional if lex.arity[o] == 1]
 
+    opq = {}     # opaque sentence mock -> its stored value at the evaluated world (None: not stored)
+
     def frames_for(va, vb):
-        def fr(a, b):
+        def fr(a, b, here):
             d = {}
             if a is not None:
                 d[A] = a
             if b is not None:
                 d[B] = b
-            return Obj('frame', atomics=d, opaques={}, predicates={})
+            return Obj('frame', atomics=d, opaques={o: v for o, v in opq.items() if v is not None} if here else {o: other for o in opq}, predicates={})
         # world 0 carries *other* values than the evaluated world
         other = V[0] if va != V[0] else V[-1]
-        return {0: fr(other, other), W: fr(va, vb)}
+        return {0: fr(other, other, False), W: fr(va, vb, True)}
 
     def expect_atom(v):
         return lg.unassigned if v is None else v
@@ -196,6 +198,36 @@ def fold_value_of(m: Model, lgs, lg, deep=False):
             # nested on one side
             n = Operated(ops[op], [A, Operated(ops[op], [A, A])])
             check(n, TF((op, expect_atom(va), w)), va, None, 'nested')
+    # compounds over an *uninterpreted* operand (a modal sentence in a non-modal logic, a quantified one in a propositional
+    # logic): the operand's value is the one stored for it (or the unassigned value), and the compound is still the table
+    # applied to the operands' values -- only the uninterpreted sentence itself is looked up
+    opaques = []
+    if not lg.modal:
+        opaques.append(Operated(ops['Necessity'], [A]))
+    if not lg.quantified:
+        qs = Quantified()
+        qs.__dict__['_repr'] = 'Q'
+        opaques.append(qs)
+    for O in opaques:
+        nm = repr(O) if isinstance(O, Operated) else 'QxFx'
+
+        def chk(sent, want, vo, vb, shape):
+            opq.clear()
+            opq[O] = vo
+            n0 = len(results)
+            check(sent, want, None, vb, shape)
+            ok_, case_, det_ = results[n0]
+            results[n0] = (ok_, f'{case_} and the uninterpreted operand {nm}={expect_atom(vo)}'.replace(repr(O), nm) if not isinstance(O, Operated) else
+                           f'{case_} and the uninterpreted operand {nm}={expect_atom(vo)}', det_)
+        for vo in vals:
+            chk(O, expect_atom(vo), vo, None, 'uninterpreted sentence')
+            for op in unary:
+                chk(Operated(ops[op], [O]), TF((op, expect_atom(vo))), vo, None, 'unary over an uninterpreted operand')
+            for op in binary:
+                for vb in (vals if deep else [V[-1], None]):
+                    chk(Operated(ops[op], [O, B]), TF((op, expect_atom(vo), expect_atom(vb))), vo, vb, 'uninterpreted left operand')
+                    chk(Operated(ops[op], [B, O]), TF((op, expect_atom(vb), expect_atom(vo))), vo, vb, 'uninterpreted right operand')
+    opq.clear()
     out = (results, sorted(consulted))
     _cache[key] = out
     return out
